@@ -318,4 +318,35 @@ def lastConfig (init : List (Filter × Bytes)) : List HOp → List (Filter × By
   | .update l :: rest => lastConfig l rest
   | .event .. :: rest => lastConfig init rest
 
+/-! ### the local member handed to the scripts
+
+`HandleEvent` calls `SelfFunc` for every event and hands that answer to `invokeEventScript`;
+the environment is a function of it.  `SelfShape.cachesSelf` describes the alternative in
+which the handler keeps a copy and refreshes it only when a member event comes in (seeded
+change C27-e): after a tag edit, user events and queries then see the previous role and tags. -/
+
+structure Self where
+  name : Bytes
+  tags : Tags
+  deriving DecidableEq, Repr, Inhabited
+
+structure SelfShape where
+  /-- the handler keeps the member in a field, refreshed by member events only -/
+  cachesSelf : Bool
+  deriving DecidableEq, Repr, Inhabited
+
+/-- the member value used for an event (and the cache afterwards); `now` = `SelfFunc()` at that moment -/
+def selfFor (sh : SelfShape) (cache : Option Self) (now : Self) (e : Event) : Self × Option Self :=
+  if sh.cachesSelf then
+    match cache, e with
+    | some c, .user .. => (c, some c)
+    | some c, .query .. => (c, some c)
+    | _, _ => (now, some now)
+  else (now, cache)
+
+/-- the member values used along a history of (SelfFunc's answer at that moment, event) -/
+def selfHistory (sh : SelfShape) (cache : Option Self) : List (Self × Event) → List Self
+  | [] => []
+  | (now, e) :: rest => (selfFor sh cache now e).1 :: selfHistory sh (selfFor sh cache now e).2 rest
+
 end SerfModel.EventScript
